@@ -9,12 +9,14 @@ The oracle (class Spec + the generic checks in `Runner`) is written from the pro
 knows nothing of the Lean model: its own stack normaliser for dotted paths, its own nested
 dict/list tree, its own leaf-path enumeration, object identities for copy independence.
 """
+import ast
 import copy
 import importlib
 import json
 import keyword
 import re
 import sys
+import warnings
 
 from framework import Suite
 
@@ -33,7 +35,87 @@ ERRS = {KeyError: "!key", AttributeError: "!attr", TypeError: "!type", IndexErro
 
 
 class OutOfModel(BaseException):
-    """eval was asked for something that is not a literal index"""
+    """eval was asked for something outside the modelled index expressions"""
+
+
+def _attr_blacklist():
+    d = mod().dotdict
+    return {a for t in (int, list, d) for a in dir(t)}
+
+
+_RECOGNISED = {}
+
+
+class ExprRecogniser:
+    """the index expressions the Lean model evaluates (same grammar as `pExpr` in Model/Dotdict.lean):
+    expr := term (('+'|'-') term)* ; term := '-'? atom ; atom := INT | IDENT ('[' expr ']' | '.' IDENT)*"""
+    START = "ABCDEFGHIJKLMNOPQRSTUVWXYZabcdefghijklmnopqrstuvwxyz_"
+    DIGITS = "0123456789"
+
+    def __init__(self, text, blacklist):
+        self.t, self.i, self.black = text, 0, blacklist
+
+    def peek(self):
+        return self.t[self.i] if self.i < len(self.t) else None
+
+    def whole(self):
+        return self.expr() and self.i == len(self.t)
+
+    def expr(self):
+        if not self.term():
+            return False
+        while self.peek() in ("+", "-"):
+            self.i += 1
+            if not self.term():
+                return False
+        return True
+
+    def term(self):
+        if self.peek() == "-":
+            self.i += 1
+        return self.atom()
+
+    def ident(self):
+        j = self.i
+        while j < len(self.t) and (self.t[j] in self.START or self.t[j] in self.DIGITS):
+            j += 1
+        word, self.i = self.t[self.i:j], j
+        return word
+
+    def atom(self):
+        c = self.peek()
+        if c is None:
+            return False
+        if c in self.DIGITS:
+            j = self.i
+            while j < len(self.t) and self.t[j] in self.DIGITS:
+                j += 1
+            digits, self.i = self.t[self.i:j], j
+            return digits == "0" or digits[0] != "0"
+        if c in self.START:
+            word = self.ident()
+            if keyword.iskeyword(word) or word in ("None", "True", "False"):
+                return False
+            return self.post()
+        return False
+
+    def post(self):
+        while True:
+            c = self.peek()
+            if c == "[":
+                self.i += 1
+                if not self.expr() or self.peek() != "]":
+                    return False
+                self.i += 1
+            elif c == ".":
+                self.i += 1
+                if self.peek() is None or self.peek() not in self.START:
+                    return False
+                word = self.ident()
+                if word in self.black or word.startswith("__"):
+                    return False
+            else:
+                return True
 
 
 def mod():
@@ -103,9 +185,100 @@ def is_list(t):
     return isinstance(t, tuple) and t[0] == "L"
 
 
+class IdxExpr:
+    """an index expression of a path component, parsed with Python's own `ast`"""
+    OK = (ast.Expression, ast.Constant, ast.Name, ast.Subscript, ast.Attribute, ast.UnaryOp, ast.USub,
+          ast.BinOp, ast.Add, ast.Sub, ast.Load)
+
+    def __init__(self, text):
+        self.text = text
+        self.dotted = "." in text
+        self.tree = None
+        try:
+            tree = ast.parse(text, mode="eval")
+        except (SyntaxError, ValueError):
+            return
+        for node in ast.walk(tree):
+            if not isinstance(node, self.OK):
+                return
+            if isinstance(node, ast.Constant) and (isinstance(node.value, bool) or not isinstance(node.value, int)):
+                return
+            if isinstance(node, ast.Name) and (keyword.iskeyword(node.id) or node.id in ("None", "True", "False")):
+                return
+            if isinstance(node, ast.Attribute) and (node.attr in RESERVED or node.attr.startswith("_") or
+                                                    any(hasattr(t, node.attr) for t in (dict, int, list))):
+                return
+        self.tree = tree.body
+
+    def value(self, level):
+        """the value in the mapping `level` (names are its entries), or MISSING"""
+        try:
+            return self._ev(self.tree, level)
+        except LookupError:
+            return MISSING
+
+    def _ev(self, n, level):
+        if isinstance(n, ast.Constant):
+            return n.value
+        if isinstance(n, ast.Name):
+            if n.id not in level[1]:
+                raise LookupError(n.id)
+            return level[1][n.id]
+        if isinstance(n, ast.Attribute):
+            v = self._ev(n.value, level)
+            if not is_level(v) or n.attr not in v[1]:
+                raise LookupError(n.attr)
+            return v[1][n.attr]
+        if isinstance(n, ast.Subscript):
+            v, i = self._ev(n.value, level), self._ev(n.slice, level)
+            if not is_list(v) or not isinstance(i, int) or not (-len(v[1]) <= i < len(v[1])):
+                raise LookupError("index")
+            return v[1][i]
+        if isinstance(n, ast.UnaryOp):
+            v = self._ev(n.operand, level)
+            if not isinstance(v, int):
+                raise LookupError("neg")
+            return -v
+        a, b = self._ev(n.left, level), self._ev(n.right, level)
+        if isinstance(a, int) and isinstance(b, int):
+            return a + b if isinstance(n.op, ast.Add) else a - b
+        if is_list(a) and is_list(b) and isinstance(n.op, ast.Add):
+            return ("L", a[1] + b[1])
+        raise LookupError("arith")
+
+
+def index_value(level, ix):
+    """the int an index of a component denotes in the mapping `level`, or MISSING"""
+    if isinstance(ix, int):
+        return ix
+    v = ix.value(level)
+    return v if isinstance(v, int) and not isinstance(v, bool) else MISSING
+
+
+def literal(comps):
+    return all(isinstance(ix, int) for _, idx in comps for ix in idx)
+
+
+_PARSED = {}
+
+
 def parse_key(key):
+    """memoised `parse_key_text` (the result is not mutated by its users)"""
+    if key not in _PARSED:
+        if len(_PARSED) > 200000:
+            _PARSED.clear()
+        _PARSED[key] = parse_key_text(key)
+    return _PARSED[key]
+
+
+RE_NAME = re.compile(r"[A-Za-z_][A-Za-z0-9_]*")
+RE_INT_ONLY = re.compile("^" + INT + "$")
+
+
+def parse_key_text(key):
     """a well-formed dotted path -> list of (name, [indices]) after '..' normalisation (a run of k dots
-    after a component goes k-1 levels up; leading dots and going above the root are ignored);
+    after a component goes k-1 levels up; leading dots and going above the root are ignored); an index is
+    an int or an IdxExpr (the text between balanced brackets, dots included).
     None when the text is not a well-formed path (the precise clauses are then not applied);
     [] when the path addresses the root itself"""
     pos, n = 0, len(key)
@@ -115,14 +288,34 @@ def parse_key(key):
     if pos == n:
         return None
     while pos < n:
-        m = RE_COMP.match(key, pos)
-        if not m or m.end() == pos:
+        m = RE_NAME.match(key, pos)
+        if not m:
             return None
-        name, idx = m.group(1), [int(i) for i in re.findall(INT, m.group(2))]
+        name = m.group(0)
         if keyword.iskeyword(name) or name in ("None", "True", "False"):
             return None
-        stack.append((name, idx))
         pos = m.end()
+        idx, dotted = [], False
+        while pos < n and key[pos] == "[":
+            depth, j = 0, pos
+            while j < n:
+                depth += {"[": 1, "]": -1}.get(key[j], 0)
+                if depth == 0:
+                    break
+                j += 1
+            if j >= n:
+                return None                   # unbalanced
+            text = key[pos + 1:j]
+            if RE_INT_ONLY.match(text):
+                idx.append(int(text))
+            else:
+                ix = IdxExpr(text)
+                if ix.tree is None or ".." in text:
+                    return None
+                dotted = dotted or ix.dotted
+                idx.append(ix)
+            pos = j + 1
+        stack.append((name, idx, dotted))
         dots = 0
         while pos < n and key[pos] == ".":
             dots += 1
@@ -133,8 +326,13 @@ def parse_key(key):
             return None                       # a single trailing dot: not a path
         for _ in range(max(0, dots - 1)):
             if stack:
-                stack.pop()
-    return stack
+                if stack.pop()[2]:
+                    return None               # '..' over a component with a dotted index: the code back-tracks textually
+    if stack and stack[-1][2]:
+        # a component whose index expression contains a dot must be followed by '.' and another
+        # component: the code splits at dots textually and needs the remainder to re-balance
+        return None
+    return [(name, idx) for name, idx, _ in stack]
 
 
 def spec_get(t, comps):
@@ -143,9 +341,10 @@ def spec_get(t, comps):
     for name, idx in comps:
         if not is_level(t) or name not in t[1]:
             return MISSING
-        t = t[1][name]
-        for i in idx:
-            if not is_list(t) or not (-len(t[1]) <= i < len(t[1])):
+        level, t = t, t[1][name]
+        for ix in idx:
+            i = index_value(level, ix)
+            if i is MISSING or not is_list(t) or not (-len(t[1]) <= i < len(t[1])):
                 return MISSING
             t = t[1][i]
     return t
@@ -195,9 +394,10 @@ def spec_set(t, comps, val):
             if idx:
                 return MISSING
             cur[1][name] = ("D", {})
-        cur = cur[1][name]
-        for i in idx:
-            if not is_list(cur) or not (-len(cur[1]) <= i < len(cur[1])):
+        level, cur = cur, cur[1][name]
+        for ix in idx:
+            i = index_value(level, ix)
+            if i is MISSING or not is_list(cur) or not (-len(cur[1]) <= i < len(cur[1])):
                 return MISSING
             cur = cur[1][i]
     name, idx = comps[-1]
@@ -209,9 +409,10 @@ def spec_set(t, comps, val):
     if len(idx) != 1 or name not in cur[1]:
         return MISSING
     lst = cur[1][name]
-    if not is_list(lst) or not (-len(lst[1]) <= idx[0] < len(lst[1])):
+    i = index_value(cur, idx[0])
+    if i is MISSING or not is_list(lst) or not (-len(lst[1]) <= i < len(lst[1])):
         return MISSING
-    lst[1][idx[0]] = val
+    lst[1][i] = val
     return root
 
 
@@ -332,20 +533,23 @@ class Runner:
         self.m = mod()
         self.dotdict = self.m.dotdict
         self.base = self.m.dotdict_base
+        self.black = _attr_blacklist()
         self.verdict = None
 
     # -- eval spy ---------------------------------------------------------------------------------
     def spy(self, expr, g=None, l=None):
         f = sys._getframe(1)
         final = f.f_code.co_name == "__setitem__" and "indx" in f.f_locals
-        if final:
-            ok = bool(RE_FINAL_IDX.match(expr))
-        else:
-            m = RE_SEG_EVAL.match(expr)
-            ok = bool(m) and not keyword.iskeyword(m.group(1)) and m.group(1) not in ("None", "True", "False")
+        ok = _RECOGNISED.get(expr)
+        if ok is None:
+            ok = _RECOGNISED[expr] = ExprRecogniser(expr, self.black).whole()
+        ok = ok or (final and bool(RE_FINAL_IDX.match(expr)))
         if not ok:
             raise OutOfModel(expr)
-        return eval(expr, g, l)
+        res = eval(expr, g, l)
+        if final and (isinstance(res, bool) or not isinstance(res, int)):
+            raise OutOfModel(expr)         # only an int index is modelled for `name[expr] = value`
+        return res
 
     def fail(self, i, op, why):
         if self.verdict is None:
@@ -460,10 +664,37 @@ class Runner:
                 res = ERRS.get(type(exc), "!other:" + type(exc).__name__)
             out.append(res + "~" + show(slots[0], base) + "~" + show(slots[1], base))
             if oom:
+                # the model is silent from here on, the property is not: judge what the code really does
+                # with this operation (same operations replayed with the builtin eval)
+                self.judge_unmodelled(case, i)
                 break
             after = [plain(x, base) for x in slots]
             self.judge(i, op4, slots, before, after, res, raised)
         return "|".join(out)
+
+    def judge_unmodelled(self, case, i):
+        base = self.base
+        saved = self.m.__dict__.pop("eval", None)
+        try:
+            warnings.simplefilter("ignore", SyntaxWarning)
+            slots = [self.dotdict(), self.dotdict()]
+            for op4 in case["ops"][:i]:
+                try:
+                    self.apply(slots, *op4)
+                except Exception:
+                    pass
+            op4 = case["ops"][i]
+            before = [plain(x, base) for x in slots]
+            try:
+                res, raised = self.apply(slots, *op4), None
+            except Exception as exc:
+                raised = type(exc)
+                res = ERRS.get(type(exc), "!other:" + type(exc).__name__)
+            after = [plain(x, base) for x in slots]
+            self.judge(i, op4, slots, before, after, res, raised)
+        finally:
+            if saved is not None:
+                self.m.eval = saved
 
     # -- the property, clause by clause ---------------------------------------------------------
     def judge(self, i, op4, slots, before, after, res, raised):
@@ -576,9 +807,9 @@ class Runner:
             else:
                 if after[s] != b:
                     fail("a refused del changed the tree")
-                if had is not MISSING and not (is_level(had) and had[1]) and not comps[-1][1]:
+                if had is not MISSING and not (is_level(had) and had[1]) and not comps[-1][1] and literal(comps):
                     fail("del of a leaf refused with " + res)
-                if is_level(had) and had[1] and raised is not KeyError:
+                if is_level(had) and had[1] and raised is not KeyError and literal(comps):
                     fail("del of a non-empty level raised %s, not KeyError" % res)
             return
         if op in ("pop", "popn", "popd"):
@@ -660,6 +891,19 @@ KEYS1 = ["a", "a.b", "a.b.c", "a.c.d", "b", ".a", "..a", "...a", ".a.b", "a..b",
 PRELUDE = [["set", 0, "a.b", 1], ["set", 0, "a.c.d", 2],
            ["set", 0, "l", lst(1, dd(x=1, y=dd(z=2)), lst(dd(w=3)))]]
 
+# a tree whose values can serve as indices: index expressions that refer to peer values
+PRELUDE_X = [["set", 0, "a", lst(dd(b=1, n=2), dd(b=11), dd(b=22, m=lst(dd(w=5), dd(w=6))))],
+             ["set", 0, "sel", pd(idx=1, two=2)], ["set", 0, "c", 1], ["set", 0, "l", lst(7, 8, 9)]]
+
+KEYS_X = ["a[a[0].b-1].b", "a[a[0].b].b", "a[a[0].n].b", "a[a[sel.idx-1].n].b", "sel.idx...a[a[0].b].b",
+          "a[sel.idx].b", "a[sel.idx+1].b", "a[sel.two-sel.idx].b", "a[-sel.idx].b", "a[c].b", "a[c+1].b", "a[c-1].n",
+          "a[c]", "a[c+1]", "l[c]", "l[c+c]", "l[-c]", "l[a[0].n]", "l[sel.idx]", "l[a[0].n].x", "a[a[0].n].m[c].w",
+          "a[a[0].n].m[a[0].b].w", "a[a[0].n].m[sel.idx-1].w", "a[a[a[0].b-1].n].b", "q.r...a[a[0].b].n",
+          "a[a[0].zz].b", "a[zz].b", "a[a[5].b].b", "a[sel].b", "a[l].b", "a[c+l].b", "a[l+l].b", "a[-l].b", "a[a[0]].b",
+          "a[a[0].n+7].b", "a[sel.idx].zz", "a[sel.idx].b.x", "c[sel.idx].b", "sel[c].b", "a[sel.idx].q.r",
+          "a[a[0].n].m[9].w", "a[a[0].b.x].b", "a[sel.idx.real].b", "a[a[0].copy].b", "a[a[0].b-1].b..n",
+          "x.a[sel.idx].b", "sel.a[c].b", "a[c].b..n", "a[c-c].n"]
+
 TAIL = [["items", 0, "", 0], ["chk", 0, "", 0], ["items", 1, "", 0], ["chk", 1, "", 0]]
 
 KEYOPS = ["get", "getd", "in", "del", "pop", "popn", "getattr", "hasattr", "delattr"]
@@ -689,10 +933,16 @@ def decorate(rng, comps):
     return out
 
 
-def rand_comp(rng, listy):
+XIDX = ["c", "c+1", "c-1", "-c", "sel.idx", "sel.idx+1", "sel.two-1", "a[0].b", "a[0].n", "a[0].b-1", "a[sel.idx-1].n",
+        "a[0].n-a[0].b", "zz", "sel", "a[0].zz", "a[9].b", "l", "c+l", "x", "b.c", "a[c].b-11"]
+
+
+def rand_comp(rng, listy, xprob=0.0):
     r = rng.random()
     if r < 0.06:
         return rng.choice(ODD)
+    if rng.random() < xprob:
+        return rng.choice(["a", "a", "l", "m"]) + "[%s]" % rng.choice(XIDX)
     name = rng.choice(NAMES)
     if (name in ("l", "m") and rng.random() < listy) or rng.random() < 0.04:
         name += "[%d]" % rng.choice([0, 0, 1, 1, 2, -1, 3, -3])
@@ -701,14 +951,18 @@ def rand_comp(rng, listy):
     return name
 
 
-def rand_key(rng, used):
+def rand_key(rng, used, xprob=0.0):
     while True:
-        key, comps = rand_key_any(rng, used)
+        key, comps = rand_key_any(rng, used, xprob)
         if not reduces_to_dot_name(key):      # the known finding's class is out of scope
             return key, comps
 
 
-def rand_key_any(rng, used):
+def rand_key_any(rng, used, xprob=0.0):
+    if xprob and rng.random() < 0.5:
+        comps = [rand_comp(rng, 0.6, xprob)] + [rng.choice(["b", "n", "m[c].w", "m[0].w", "x", "b"])
+                                                 for _ in range(rng.choice([0, 1, 1, 1, 2]))]
+        return decorate(rng, comps), comps
     if used and rng.random() < 0.6:
         comps = list(rng.choice(used))
         r = rng.random()
@@ -770,6 +1024,11 @@ def rand_case(rng, stream):
     ops, used = [], []
     n = rng.randint(2, 12)
     copied = False
+    xprob = 0.0
+    if stream == "expr":                      # index expressions over a tree that has values to refer to
+        ops = [list(o) for o in PRELUDE_X]
+        n = rng.randint(1, 7)
+        xprob = 0.7
     for _ in range(n):
         s = rng.choice([0, 1]) if copied else 0
         r = rng.random()
@@ -778,15 +1037,15 @@ def rand_case(rng, stream):
             copied = True
             continue
         if stream == "malformed" and r < 0.6:
-            toks = ["a", "b", "l", ".", ".", ".", "[", "]", "0", "1", "-", "copy", "x"]
+            toks = ["a", "b", "l", ".", ".", ".", "[", "]", "[", "]", "0", "1", "-", "+", "copy", "x"]
             key = "".join(rng.choice(toks) for _ in range(rng.randint(1, 8)))
             while reduces_to_dot_name(key):
                 key = "".join(rng.choice(toks) for _ in range(rng.randint(1, 8)))
             op = rng.choice(["get", "in", "set", "set", "del", "pop", "setdefault", "getd"])
             ops.append([op, s, key, rng.choice([1, 2, lst(1, dd(x=1)), pd(b=1)]) if op in ("set", "setdefault") else 0])
             continue
-        key, comps = rand_key(rng, used)
-        if r < 0.42 or not ops:
+        key, comps = rand_key(rng, used, xprob)
+        if r < (0.25 if xprob else 0.42) or not ops:
             op = rng.choice(["set", "set", "set", "setattr", "setdefault"])
             ops.append([op, s, key, rand_value(rng)])
             used.append(comps)
@@ -859,12 +1118,18 @@ class C16(Suite):
             "grid assigned at each of 16 keys then looked up; seeded random sequences of 2-12 operations over two slots "
             "(keys derived from earlier keys with '..' detours, plain-dict / list / dotdict values, copy and deepcopy), "
             "a copy-focused stream and a malformed-key stream (random strings over names, dots, brackets, digits); "
+            "an index-expression grid and stream (keys such as a[a[0].b-1].b, a[sel.idx+1].b over a tree whose values serve "
+            "as indices; present, absent, mistyped and out-of-range references); "
             "a heap stream (random nested dotdict/list trees, copy.copy, one assignment through the copy at a random "
             "mapping: how original and copy read afterwards, against the object-identity model); "
             "non-trivial = at least one assignment succeeded and a later operation on a multi-component, indexed or "
             "'..' key returned without exception; distinct by operation sequence") % (len(KEYS1), len(VALUES))
     assumptions = [
-        "index expressions are integer literals (name[i][j]); any other text reaching eval ends the case on both sides (oom)",
+        "index expressions are integer literals or the documented expressions over peer values (names, ref[expr], ref.attr, "
+        "unary minus, + and -); any other text reaching eval ends the case on both sides (oom)",
+        "a component whose index expression contains a dot must be followed by '.' and another component (the code splits "
+        "at dots textually: d['l[a.b]'] raises ValueError); del/pop are not required to address through index expressions "
+        "(documented as not implemented)",
         "values stored are ints, lists and dotdicts (plain dicts inside lists are not converted by the code and are not generated)",
         "lists of mappings have at most 10 elements in the precise key-listing clause (longer lists are listed with space-padded indices)",
         "getattr/hasattr are exercised on keys that are not attributes of the class (the others never reach __getattr__)",
@@ -897,6 +1162,13 @@ class C16(Suite):
                 yield {"stream": "grid", "ops": PRELUDE + [["set", 0, key, val], ["get", 0, key, 0], ["in", 0, key, 0]] + TAIL}
                 yield {"stream": "grid", "ops": [["set", 0, key, val], ["get", 0, key, 0],
                                                  ["copy", 0, "", 0], ["set", 1, "l[1].x", 9], ["set", 1, key + ".n", 1]] + TAIL}
+        # index expressions that refer to peer values (documented: d['a[a[0].b-1].b'])
+        for key in KEYS_X:
+            for op in KEYOPS:
+                yield {"stream": "xgrid", "ops": PRELUDE_X + [fix_attr([op, 0, key, 0])] + TAIL}
+            for op in ("set", "setdefault"):
+                for val in (77, pd(q=8)):
+                    yield {"stream": "xgrid", "ops": PRELUDE_X + [[op, 0, key, val], ["get", 0, key, 0], ["in", 0, key, 0]] + TAIL}
         # copy independence through every kind of path
         for cp in ("copy", "deepcopy"):
             for key in KEYS1:
@@ -905,9 +1177,9 @@ class C16(Suite):
                         yield {"stream": "copygrid", "ops": PRELUDE + [[cp, 0, "", 0], [op, slot, key, 5]] + TAIL}
         for _ in range(1500 if tier == "quick" else 20000):
             yield heap_case(rng)
-        nrand = 25000 if tier == "quick" else 400000
+        nrand = 20000 if tier == "quick" else 330000
         for i in range(nrand):
-            stream = ("rand", "rand", "rand", "copy", "malformed")[i % 5]
+            stream = ("rand", "rand", "expr", "copy", "malformed", "rand", "expr", "rand", "copy", "malformed")[i % 10]
             yield rand_case(rng, stream)
 
     def model_line(self, c):
